@@ -389,13 +389,13 @@ class Language(BaseLanguage):
         """
         std_includes: typing.List[str] = []
         std_includes.append("limits")  # we always include limits to support static assertions
-        if self.get_config_value_as_bool("use_standard_types"):
-            if dep_types.uses_integer:
-                std_includes.append("cstdint")
-            if dep_types.uses_array or dep_types.uses_primitive_static_array:
-                std_includes.append("array")
-            if dep_types.uses_boolean_static_array:
-                std_includes.append("bitset")
+        if self.get_config_value_as_bool("use_standard_types") and dep_types.uses_integer:
+            std_includes.append("cstdint")
+        # create_array_decl / create_bitset_decl spell std::array and std::bitset whatever use_standard_types says
+        if dep_types.uses_array or dep_types.uses_primitive_static_array:
+            std_includes.append("array")
+        if dep_types.uses_boolean_static_array:
+            std_includes.append("bitset")
         if dep_types.uses_union and self.has_variant:
             std_includes.append("variant")
         includes_formatted = [f"<{include}>" for include in sorted(std_includes)]
